@@ -1,3 +1,4 @@
+import IndicatifModel.Props.C01
 import IndicatifModel.Proofs.Raw
 import IndicatifModel.Proofs.Rows
 /-!
@@ -111,3 +112,53 @@ example :
   refine ⟨⟨trivial, trivial, trivial, trivial, trivial, trivial, trivial⟩, ?_, ?_⟩ <;> decide +kernel
 
 end IndicatifModel.Rows
+
+/-! ## A single bar: every printed line is on the terminal once, in order, above the frame -/
+namespace IndicatifModel
+open Term
+
+theorem printing_emits (b : Bar) (tt : TermTarget) (h : b.target = some tt) (now : Nat) (op : BarOp)
+    (hp : printedBy op ≠ []) : (b.step now op).2 ≠ [] := by
+  cases op with
+  | println t => simp only [Bar.step, h]; exact drawToTerm_ne_nil _ _ _ _ _
+  | suspend out =>
+    simp only [Bar.step, h]
+    exact List.append_ne_nil_of_left_ne_nil (List.append_ne_nil_of_left_ne_nil (drawToTerm_ne_nil _ _ _ _ _) _) _
+  | _ => exact absurd rfl hp
+
+/-- **C03 for a single bar.** Under the hypotheses of `C01_bar_history`: after every history of bar operations the log the terminal
+shows above the frame (`C01_bar_history`: rows = log ++ frame, in this order) is exactly the concatenation, in emission order,
+of everything printed by `println` and written by `suspend` closures — every line once, none lost to a later draw, tick,
+finish, reset or drop, whatever the limiter skipped -/
+theorem C03_bar_log (fx : Fixes) (W H : Nat) (hW : 0 < W) (hH : 0 < H) (b0 : Bar) (tt0 : TermTarget)
+    (hb : b0.target = some tt0) (hT : TInv W H fx tt0) (hllc : tt0.llc = 0) (ops : List (Nat × BarOp))
+    (hok : OkRun W H { bar := b0, term := Term.init W H } ops) :
+    let w := ops.foldl BarWorld.step { bar := b0, term := Term.init W H }
+    w.logs = (ops.map (fun p => printedBy p.2)).flatten ∧ BInv W H fx w.bar w.term w.logs w.frame := by
+  have key : ∀ (ops : List (Nat × BarOp)) (w : BarWorld), BInv W H fx w.bar w.term w.logs w.frame → OkRun W H w ops →
+      (ops.foldl BarWorld.step w).logs = w.logs ++ (ops.map (fun p => printedBy p.2)).flatten ∧
+      BInv W H fx (ops.foldl BarWorld.step w).bar (ops.foldl BarWorld.step w).term (ops.foldl BarWorld.step w).logs
+        (ops.foldl BarWorld.step w).frame := by
+    intro ops
+    induction ops with
+    | nil => intro w h _; exact ⟨by simp, h⟩
+    | cons p ps ih =>
+      intro w h hr
+      have hs : (w.step p).logs = w.logs ++ printedBy p.2 ∧ BInv W H fx (w.step p).bar (w.step p).term (w.step p).logs (w.step p).frame := by
+        rcases step_binv W H fx hW w.bar w.term w.logs w.frame p.1 p.2 h hr.1 with ⟨he, hB⟩ | ⟨hne, hB⟩
+        · have hp : printedBy p.2 = [] := by
+            by_cases hp : printedBy p.2 = []
+            · exact hp
+            · obtain ⟨tt, htt, _, _⟩ := h
+              exact absurd he (printing_emits w.bar tt htt p.1 p.2 hp)
+          refine ⟨by simp only [BarWorld.step, he, if_true, hp, List.append_nil], ?_⟩
+          simpa [BarWorld.step, he, Term.execAll] using hB
+        · exact ⟨by simp only [BarWorld.step, hne, if_false], by simpa only [BarWorld.step, hne, if_false] using hB⟩
+      obtain ⟨h1, h2⟩ := ih (w.step p) hs.2 hr.2
+      refine ⟨?_, h2⟩
+      simp only [List.foldl_cons, List.map_cons, List.flatten_cons]
+      rw [h1, hs.1, List.append_assoc]
+  have := key ops { bar := b0, term := Term.init W H } ⟨tt0, hb, hT, by rw [hllc]; exact init_integrity W H hW hH⟩ hok
+  simpa using this
+
+end IndicatifModel
